@@ -73,3 +73,23 @@ def disown(regions):
         except Exception:  # the harness's own throw-away object: nothing to learn from a refusal here
             pass
     return regions
+
+
+def rewrite_in_place(f):
+    """The values of a field ARRIVE through in-place writes into `field.array`, with every derived quantity read while the
+    array holds other values: write zeros in place, read norm / orientation / mean / validity-as-norm candidates, write the
+    values back in place.  The field is exactly what it was; anything the library memoised in between is stale (seeded
+    changes C15-2, C08-11, C03-11 cached the norm and dropped the cache only in the `array` setter)."""
+    import numpy as np
+    try:
+        arr = f.array
+        keep = arr.copy()
+        arr[...] = 0
+        try:
+            f.norm, f.orientation, f.mean()
+        except Exception:  # noqa: BLE001  (reads only; nothing is judged here)
+            pass
+        arr[...] = keep
+    except Exception:  # noqa: BLE001  a read-only array: leave the field alone
+        pass
+    return f
